@@ -273,7 +273,7 @@ theorem C12_superclass_names_complete (s : State) (hr : Reachable s) (x : Cls) (
 theorem C12_failed_op_changes_nothing (s : State) (op : Op) (e : PyExc)
     (h : (step s op).2 = .err e) : (step s op).1 = s := by
   cases op with
-  | addInst i => simp [step] at h
+  | addInst i => simp only [step] at h ⊢; split <;> simp_all
   | create c => simp only [step] at h ⊢; split <;> simp_all
   | add c => simp only [step] at h ⊢; split <;> simp_all
   | modify c => simp only [step] at h ⊢; split <;> simp_all
@@ -833,5 +833,62 @@ theorem C12_overriding_element_quals_exact (decls : List QDecl) (ops : List Op)
     · exact hc.2.1.2 d h1
     · exact hc.2.2.2 d h1
   exact ⟨resolveQuals_override_lnames hinh h, resolveQuals_own_wins hown h, resolveQuals_form hown hinh h⟩
+
+/-- **EnumerateClassNames() without class name lists every class once** (every reachable store,
+    DeepInheritance or not); with `C12_enumerate_all_exact`: the returned list IS the class set. -/
+theorem C12_enumerate_all_no_duplicates (s : State) (hr : Reachable s) (deep : Bool) :
+    (subNames s.classes none deep).Nodup := by
+  have hf := reachable_forest hr
+  cases deep with
+  | true => simp only [subNames, if_true]; exact all_nodup hf _
+  | false =>
+    simp only [subNames, Bool.false_eq_true, if_false]
+    have := all_nodup hf 0
+    simp only [subNamesDeep] at this
+    exact (List.nodup_append.mp this).1
+
+example : (subNames wState.classes none true).Nodup := by decide
+
+/-- **Stored instances are pairwise different, and EnumerateInstances lists none twice**: a second
+    instance with the same path (class name up to case, key) is refused by add_cimobjects; on every
+    reachable store the instance store and every EnumerateInstance(Name)s result have no two entries
+    with the same path. -/
+theorem C12_enumInstances_no_duplicates (s : State) (hr : Reachable s) (n : Name) (l : List Inst)
+    (h : enumInsts s n = .ok l) : InstsUnique s.insts ∧ InstsUnique l := by
+  have hu := reachable_instsUnique hr
+  refine ⟨hu, ?_⟩
+  unfold enumInsts at h
+  split at h
+  · simp at h
+  · injection h with h; subst h
+    exact List.Pairwise.sublist List.filter_sublist hu
+
+example : (step wState (.addInst { cls := ['s','u','B'], key := 1 })).2 = .err .valueError := by decide
+
+/-- **The own entries of an overriding element's qualifier dictionary, exactly** (flavors and
+    propagated flag included): for every own qualifier `q` the resolved dictionary holds
+    `_init_qualifier(q)` — flavors: own value, else declaration, else True; propagated = False — and
+    with propagated = True instead exactly when the overridden element carries a ToSubclass,
+    non-overridable qualifier of that name (`MarkedBy`; `q` can then only repeat its value).  Together
+    with `C12_overriding_element_quals_per_flavor` (keys) and `C12_overriding_element_quals_accounted`
+    (inherited entries are exact copies) the resolved dictionary is determined completely. -/
+theorem C12_overriding_element_own_entries_exact (decls : List QDecl) (own inh r : List Qual)
+    (hpo : List.Pairwise (fun a b => ieq a.name b.name = false) own)
+    (hpi : List.Pairwise (fun a b => ieq a.name b.name = false) inh)
+    (h : resolveQuals decls own inh true = .ok r) : ∀ q ∈ own, OwnEntry decls inh r q :=
+  resolveQuals_own_exact hpo hpi h
+
+/-- `[Key] string k` in Base (DisableOverride, ToSubclass), `[Key, Override("k")] string K` in Sub:
+    the repeated Key is marked propagated, the new Override entry is not -/
+example :
+    let dKey : QDecl := { name := ['K','e','y'], ty := 0, scopes := [.prop], anyScope := false,
+                          tosub := some true, overr := some false, transl := none }
+    let inh : List Qual := [{ name := ['K','e','y'], ty := 0, val := .tok 1, propagated := some false,
+                              tosub := some true, overr := some false }]
+    let own : List Qual := [{ name := ['k','e','y'], ty := 0, val := .tok 1 },
+                            { name := ['O','v','e','r','r','i','d','e'], ty := 1, val := .str ['k'] }]
+    (okOr (resolveQuals [dKey, wOverride] own inh true) []).map (fun q => (q.name, q.propagated, q.tosub, q.overr)) =
+      [(['k','e','y'], some true, some true, some false),
+       (['O','v','e','r','r','i','d','e'], some false, some false, some true)] := by decide
 
 end C12
